@@ -13,7 +13,7 @@ Open Scope string_scope.
 """
 
 NAMES = ['x', 'y', 'z', 'w']
-IDS = ['a', 'b', 'c', 'd', 'e']
+IDS = ['a', 'b', 'utt3', 'd', 'e_5']
 
 
 def gen_part(r, first, used_names):
@@ -151,6 +151,7 @@ def run(tier):
     N = 6000 if big else 500
     cases, hcases, meta, failures = [], [], [], []
     tmp = tempfile.mkdtemp(prefix='c19_')
+    alive = collections.deque(maxlen=3)      # databases and datasets of the previous cases stay alive: databases are independent of each other
     for ci in range(N):
         parts = gen_desc(r)
         reqs = gen_requests(r, parts)
@@ -197,6 +198,14 @@ def run(tier):
                         gc.collect()
                     except Exception:
                         pass
+        if ok:
+            keep = [db]
+            for q in reqs:
+                try:
+                    keep.append(db.get_dataset(q if isinstance(q, str) else list(q)))
+                except Exception:
+                    pass
+            alive.append(keep)
         cases.append('(%s, %s)' % (F.coq_list([coq_part(p) for p in snap]),
                                    'None' if answers is None else '(Some %s)' % F.coq_list(['(%s, %s)' % (coq_req(q), coq_answer(a)) for q, a in zip(reqs, answers)])))
         meta.append((snap, reqs, answers))
